@@ -3,9 +3,9 @@
 # from /repo's CURRENT working tree.  usage: build_sim.sh <flavour> <outdir>
 #   flavour: gcc_new (C, default build) | c11 (C, -DNSYNC_ATOMIC_C11) | cpp11 (sources compiled as C++)
 set -e
-FL=${1:-gcc_new}; OUT=${2:-/verif/work/sim_$FL}
+FL=${1:-gcc_new}; OUT=${2:-work/sim_$FL}
 REPO=${VERIF_REPO:-/repo}
-V=/verif
+V=${VERIF_ROOT:-$(cd "$(dirname "$0")/.." && pwd)}
 mkdir -p "$OUT"
 INC="-I$V/sim/platform -I$V/sim/rt -I$V/sim/interp -I$REPO/platform -I$REPO/platform/posix -I$REPO/public -I$REPO/internal"
 COMMON="-O1 -g -fPIC -fno-omit-frame-pointer -DGOOGLE_NSYNC_VERIF -Wno-unused-command-line-argument"
